@@ -9,6 +9,7 @@ import (
 	"github.com/honeycombio/refinery/config"
 	real "github.com/honeycombio/refinery/internal/configwatcher"
 	"github.com/honeycombio/refinery/logger"
+	"github.com/honeycombio/refinery/pubsub"
 	"go.opentelemetry.io/otel/trace/noop"
 )
 
@@ -17,4 +18,18 @@ import (
 func VerifPubsubTrigger(cfg config.Config, lg logger.Logger) func(ctx context.Context, msg string) {
 	cw := &real.ConfigWatcher{Config: cfg, Logger: lg, Tracer: noop.NewTracerProvider().Tracer("verif")}
 	return cw.SubscriptionListener
+}
+
+// VerifStartedWatcher builds and Start()s a real ConfigWatcher (real monitor goroutine on the periodic timer,
+// real subscription) on a real in-process pubsub. Stop it with the returned function.
+func VerifStartedWatcher(cfg config.Config, lg logger.Logger) (stop func(), err error) {
+	ps := &pubsub.LocalPubSub{Config: cfg}
+	if err := ps.Start(); err != nil {
+		return nil, err
+	}
+	cw := &real.ConfigWatcher{Config: cfg, Logger: lg, PubSub: ps, Tracer: noop.NewTracerProvider().Tracer("verif")}
+	if err := cw.Start(); err != nil {
+		return nil, err
+	}
+	return func() { cw.Stop(); ps.Stop() }, nil
 }
